@@ -29,7 +29,7 @@ BigFrames ==
                  ps \in {<<"global", "-">>, <<"scoped", "app1/ep1">>}, n \in {251, 400, 600, 1000},
                  lim \in {"reject", "drop_oldest"}, q \in {"near_full", "near_full_leased"} }
   ELSE { FB(ps[1], ps[2], x[1], lq[1], lq[2], x[2]) :
-           ps \in {<<"global", "-">>, <<"scoped", "app1/ep1">>}, x \in {<<251, 250>>, <<400, 1>>, <<400, 250>>, <<400, 399>>},
+           ps \in {<<"global", "-">>, <<"scoped", "app1/ep1">>}, x \in {<<251, 250>>, <<400, 1>>, <<400, 250>>, <<400, 399>>, <<600, 599>>, <<1000, 501>>},
            lq \in {<<"reject", "near_full">>, <<"drop_oldest", "near_full_leased">>} }
 
 NoPad == <<0, 0>>
